@@ -100,6 +100,7 @@ type AuthWorld struct {
 	subj  string           // frozen subject client for RecoverClient
 
 	prepCl, prepAlias prepared
+	bReg              bool // B's side of the fresh pair has its counterparty registered (needed by client-route relays only)
 	last              AuState
 }
 
@@ -365,11 +366,9 @@ func (w *AuthWorld) Begin(final AuAct) (prep string) {
 	}
 	p := ibctesting.NewPath(w.A, w.B)
 	p.SetupClients()
-	if err := p.EndpointB.RegisterCounterparty(); err != nil {
-		return "register counterparty on B: " + err.Error()
-	}
 	resync(w.A, w.get)
 	w.cur = p
+	w.bReg = false
 	if isRelay(final.Op) && final.Tgt == "cl0" {
 		pr, err := w.prepare(w.aliasRoute(), final.Op)
 		if err != nil {
@@ -395,6 +394,12 @@ func (w *AuthWorld) AfterStep(final AuAct) string {
 	}
 	if !(w.last.Cp && len(w.last.Rel) == 0 && w.last.Allowed) {
 		return ""
+	}
+	if !w.bReg {
+		if err := w.cur.EndpointB.RegisterCounterparty(); err != nil {
+			return "register counterparty on B: " + err.Error()
+		}
+		w.bReg = true
 	}
 	pr, err := w.prepare(w.clientRoute(), final.Op)
 	if err != nil {
